@@ -130,6 +130,7 @@ func (p *Poller) Poll(ctx context.Context, peer peer.ID) (*PollResult, error) {
 		if resp.PendingInstance >= p.NextInstance {
 			res.Status = PollHit
 		}
+		receivedBefore := res.ReceivedCertificates
 
 		for cert := range ch {
 			// TODO: consider batching verification, it's slightly faster.
@@ -162,10 +163,11 @@ func (p *Poller) Poll(ctx context.Context, peer peer.ID) (*PollResult, error) {
 		// least one).
 		if resp.PendingInstance <= p.NextInstance {
 			return res, nil
-		} else if res.ReceivedCertificates == 0 {
+		} else if res.ReceivedCertificates == receivedBefore {
 			res.Status = PollFailed
-			// If they give me no certificates but claim to have more, treat this as a
-			// failure (could be a connection failure, etc).
+			// If they give me no certificates in this request but claim to have more,
+			// treat this as a failure (could be a connection failure, etc) instead of
+			// asking the same peer again and again.
 			return res, nil
 		}
 
